@@ -236,6 +236,14 @@ def hasModified (ctx : List FileCtx) (target name : Text) : Bool :=
   ctx.any (fun g => pathEq g.path target &&
     g.blocks.any (fun c => c.contentMod && attrGet c.block.attrs "name".toList = some name))
 
+/-- one diagnostic per missing reference, in order; `create_violation` needs the block's severity, so an
+    unknown severity is an error as soon as one reference is missing -/
+def affectsDiags (path : Text) (b : Block) (missing : List (Option Text × Text)) : Except ErrKind (List Diag) :=
+  match severityOf b.attrs with
+  | .error e => if missing.isEmpty then .ok [] else .error e
+  | .ok sev => .ok (missing.map (fun (fp, name) =>
+      tagDiag "affects" b sev [("affected_block_file_path", fp.getD path), ("affected_block_name", name)]))
+
 /-- `AffectsValidator::validate`: one diagnostic per reference without a modified block of that name -/
 def affectsFile (ctx : List FileCtx) (f : FileCtx) : List (Except ErrKind (List Diag)) :=
   f.blocks.map (fun b =>
@@ -247,11 +255,7 @@ def affectsFile (ctx : List FileCtx) (f : FileCtx) : List (Except ErrKind (List 
       | .error e => .error e
       | .ok refs =>
         let missing := refs.filter (fun (fp, name) => !hasModified ctx (fp.getD f.path) name)
-        missing.mapM (fun (fp, name) =>
-          match severityOf b.block.attrs with
-          | .error e => .error e
-          | .ok sev => .ok (tagDiag "affects" b.block sev
-              [("affected_block_file_path", fp.getD f.path), ("affected_block_name", name)])))
+        affectsDiags f.path b.block missing)
 
 /-- the user messages of the requests check-ai sends: one per block with a non-blank condition whose
     content selection succeeds -/
